@@ -28,6 +28,7 @@ with pexp :=
 | SDraw (raw : bool) (g : gdesc) (k : pexp)
 | SIf (c : cond) (a b : pexp)
 | SFail (kind : failkind) (id : nat) (m : msg) (k : pexp)
+| SFailV (kind : failkind) (id : nat) (me de : vexp) (k : pexp)   (* message and recursion depth computed from drawn values *)
 | SSkip (m : msg)
 | SCleanup (id : nat) (f : pexp) (k : pexp)
 | SContext (k : pexp)
@@ -108,6 +109,9 @@ with compile_p (env : list val) (p : pexp) : prog :=
       PDraw ge (fun v => compile_p (env ++ [v]) k)
   | SIf c a b => if eval_c env c then compile_p env a else compile_p env b
   | SFail kind id m k => PFail kind id m (compile_p env k)
+  | SFailV kind id me de k =>
+      PFail kind (id + 100 * Z.to_nat (val_z (eval_v env de) mod 4))
+            (MUser (Z.to_N (val_z (eval_v env me) mod 50))) (compile_p env k)
   | SSkip m => PSkip m
   | SCleanup id f k => PCleanup id (compile_p env f) (compile_p env k)
   | SContext k => PContext (fun b => compile_p (env ++ [VB b]) k)
